@@ -105,6 +105,11 @@ class Fn:
 
     # ------------------------------------------------------------------ expressions -> (coq text, type)
     def prim(self, node, entry, args):
+        if 'overloads' in entry:
+            for o in entry['overloads']:
+                if [a[1] for a in args] == o.get('args', []):
+                    return self.prim(node, o, args)
+            raise Unsupported(node, 'no variant of the signature takes arguments of types %s' % [a[1] for a in args])
         want = entry.get('args', [])
         if len(want) != len(args):
             raise Unsupported(node, 'arity: %d arguments where the signature has %d' % (len(args), len(want)))
@@ -124,6 +129,43 @@ class Fn:
             return ('true' if e.value else 'false'), 'bool'
         if isinstance(e, ast.Constant) and type(e.value) is float and e.value == int(e.value) and 'Z->Q' in self.sig.get('coerce', {}):
             return self.sig['coerce']['Z->Q'].format('(%d)%%Z' % int(e.value)), 'Q'
+        if isinstance(e, ast.Constant) and isinstance(e.value, str):
+            if e.value in self.sig.get('formats', {}):
+                return self.sig['formats'][e.value], 'fmt'
+            if e.value in self.sig.get('texts', {}):
+                return self.sig['texts'][e.value], 'line'
+            raise Unsupported(e, 'text constant is not in the signature')
+        if isinstance(e, ast.List) and all(isinstance(x, ast.Constant) for x in e.elts):
+            ent = self.sig.get('list_literals', {}).get(json.dumps([x.value for x in e.elts]))
+            if ent is None:
+                raise Unsupported(e, 'list literal is not in the signature')
+            return ent['coq'], ent['type']
+        if isinstance(e, ast.IfExp):
+            a, b = self.expr(e.body, env), self.expr(e.orelse, env)
+            if a[1] != b[1]:
+                raise Unsupported(e, 'conditional expression of types %s / %s' % (a[1], b[1]))
+            return 'if %s then %s else %s' % (self.truth(e.test, env), a[0], b[0]), a[1]
+        if isinstance(e, ast.Compare) and len(e.ops) == 1 and isinstance(e.ops[0], ast.Is) \
+                and isinstance(e.comparators[0], ast.Constant) and e.comparators[0].value is None:
+            l = self.expr(e.left, env)
+            ent = self.sig.get('is_none', {}).get(l[1])
+            if ent is None:
+                raise Unsupported(e, '`is None` on a value of type %s' % l[1])
+            return ent.format(paren(l[0])), 'bool'
+        if isinstance(e, ast.Subscript) and isinstance(e.ctx, ast.Load) and isinstance(e.slice, ast.Constant) and e.slice.value == 0 \
+                and type(e.slice.value) is int:
+            v = self.expr(e.value, env)
+            ent = self.sig.get('index0', {}).get(v[1])
+            if ent is None:
+                raise Unsupported(e, '[0] on a value of type %s' % v[1])
+            return ent['coq'].format(paren(v[0])), ent['type']
+        if isinstance(e, ast.BinOp) and isinstance(e.op, (ast.Add, ast.Mod)) and isinstance(e.left, ast.Constant) \
+                and isinstance(e.left.value, str):
+            r = self.expr(e.right, env)   # a labelled piece of text: the constant names the line, the rest is its figure
+            ent = self.sig.get('labels', {}).get('%s %s %s' % (e.left.value, type(e.op).__name__, r[1]))
+            if ent is None:
+                raise Unsupported(e, 'text constant with %s of a %s is not in the signature' % (type(e.op).__name__, r[1]))
+            return ent['coq'].format(paren(r[0])), ent['type']
         if isinstance(e, ast.UnaryOp) and isinstance(e.op, ast.Not):
             return 'negb %s' % paren(self.truth(e.operand, env)), 'bool'
         if isinstance(e, ast.BoolOp):
@@ -160,11 +202,16 @@ class Fn:
                 if name in env:
                     raise Unsupported(e, 'call of the variable %s' % name)
                 origin = self.bindings.get(name, 'builtins.' + name)
-                ent = self.sig['functions'].get(origin)
-                if e.keywords:
-                    raise Unsupported(e, 'keyword arguments')
+                return self.fcall(e, name, origin, args)
+            if isinstance(e.func, ast.Attribute) and isinstance(e.func.value, ast.Name) and e.func.value.id not in env \
+                    and self.bindings.get(e.func.value.id, '').startswith('module:'):
+                origin = self.bindings[e.func.value.id][7:] + '.' + e.func.attr
+                return self.fcall(e, e.func.attr, origin, args)
+            if isinstance(e.func, ast.Attribute) and isinstance(e.func.value, ast.Constant) and isinstance(e.func.value.value, str) \
+                    and e.func.attr == 'join' and not e.keywords:
+                ent = self.sig.get('joins', {}).get(e.func.value.value)
                 if ent is None:
-                    raise Unsupported(e, 'call of %s (%s) is not in the signature' % (name, origin))
+                    raise Unsupported(e, 'join with this separator is not in the signature')
                 return self.prim(e, ent, args)
             if isinstance(e.func, ast.Attribute):
                 recv = self.expr(e.func.value, env)
@@ -197,6 +244,20 @@ class Fn:
             return ent['coq'].format(paren(l[0]), paren(r[0])), ent['type']
         raise Unsupported(e, 'expression %s' % type(e).__name__)
 
+    def fcall(self, e, name, origin, args):
+        ent = self.sig['functions'].get(origin)
+        if ent is None:
+            raise Unsupported(e, 'call of %s (%s) is not in the signature' % (name, origin))
+        want = dict(ent.get('kw_exact', {}))
+        for k in e.keywords:
+            if k.arg in want and ast.dump(k.value, annotate_fields=False) == want[k.arg]:
+                del want[k.arg]
+            else:
+                raise Unsupported(e, 'keyword %s of %s is not as in the signature' % (k.arg, name))
+        if want:
+            raise Unsupported(e, 'call of %s without the keyword(s) %s of the signature' % (name, sorted(want)))
+        return self.prim(e, ent, args)
+
     def truth(self, e, env):
         txt, ty = self.expr(e, env)
         if ty == 'bool':
@@ -216,13 +277,30 @@ class Fn:
         return c.format(paren(txt))
 
     # ------------------------------------------------------------------ statements
+    def append_target(self, s):
+        """X.append(v) as a statement, X a plain name: the name, else None"""
+        if isinstance(s, ast.Expr) and isinstance(s.value, ast.Call) and isinstance(s.value.func, ast.Attribute) \
+                and s.value.func.attr == 'append' and isinstance(s.value.func.value, ast.Name) \
+                and len(s.value.args) == 1 and not s.value.keywords:
+            return s.value.func.value.id
+        return None
+
+    def ignored(self, s):
+        return isinstance(s, ast.Expr) and dump_hash([s]) in self.sig.get('ignored_statements', [])
+
     def assigned(self, stmts):
         out = []
         for s in stmts:
-            if isinstance(s, ast.Assign) and len(s.targets) == 1:
+            if self.ignored(s):
+                continue
+            if self.append_target(s):
+                out.append(self.append_target(s))
+            elif isinstance(s, ast.Assign) and len(s.targets) == 1:
                 t = s.targets[0]
                 if isinstance(t, ast.Name):
                     out.append(t.id)
+                elif isinstance(t, ast.Tuple) and all(isinstance(x, ast.Name) for x in t.elts):
+                    out += [x.id for x in t.elts]
                 elif isinstance(t, ast.Subscript) and isinstance(t.value, ast.Name):
                     out.append(t.value.id)
                 else:
@@ -232,6 +310,9 @@ class Fn:
             else:
                 raise Unsupported(s, 'statement %s inside a loop' % type(s).__name__)
         return out
+
+    def has_return(self, stmts):
+        return any(isinstance(x, ast.Return) for st in stmts for x in ast.walk(st))
 
     def returns(self, stmts):
         if not stmts:
@@ -247,6 +328,51 @@ class Fn:
                 raise Unsupported(ast.Pass(), 'a path falls off the end of the function')
             return pad + final(env)
         s, rest = stmts[0], stmts[1:]
+        if self.ignored(s):
+            return self.block(rest, env, final, ind)
+        if self.append_target(s):
+            name = self.append_target(s)
+            if name not in env:
+                raise Unsupported(s, 'append to %s, which is not a variable in scope' % name)
+            v = self.expr(s.value.args[0], env)
+            ent = self.sig.get('append', {}).get('%s<-%s' % (env[name], v[1]))
+            if ent is None:
+                raise Unsupported(s, 'append of a %s to a %s is not in the signature' % (v[1], env[name]))
+            return pad + 'let %s := %s in\n' % (name, ent.format(name, paren(v[0]))) + self.block(rest, env, final, ind)
+        if isinstance(s, ast.If) and self.sig.get('merge_ifs') and not self.has_return(s.body) and not self.has_return(s.orelse):
+            # neither branch returns: the if yields the names it assigns, the statements after it come once
+            a, b = self.assigned(s.body), self.assigned(s.orelse)
+            state = sorted(n for n in set(a) | set(b) if n in env or (n in a and n in b))
+            if not state:
+                raise Unsupported(s, 'an if that assigns nothing visible afterwards')
+            tup = lambda ns: ns[0] if len(ns) == 1 else '(' + ', '.join(ns) + ')'
+            tys = []
+
+            def fin(e2):
+                tys.append([e2[n] for n in state])
+                return tup(state)
+            tb = self.block(list(s.body), env, fin, ind + 1)
+            eb = self.block(list(s.orelse), env, fin, ind + 1)
+            if len(tys) != 2 or tys[0] != tys[1]:
+                raise Unsupported(s, 'the branches of an if leave different types in %s' % state)
+            env2 = dict(env)
+            for n, ty in zip(state, tys[0]):
+                env2[n] = ty
+            return (pad + "let %s%s :=\n" % ("'" if len(state) > 1 else '', tup(state)) + pad + '  if %s\n' % self.truth(s.test, env)
+                    + pad + '  then (\n' + tb + ')\n' + pad + '  else (\n' + eb + ') in\n' + self.block(rest, env2, final, ind))
+        if isinstance(s, ast.Assign) and len(s.targets) == 1 and isinstance(s.targets[0], ast.Tuple):
+            t = s.targets[0]
+            val = self.expr(s.value, env)
+            parts = self.sig.get('tuples', {}).get(val[1])
+            if parts is None or len(parts) != len(t.elts) or not all(isinstance(x, ast.Name) for x in t.elts) \
+                    or len(set(x.id for x in t.elts)) != len(t.elts):
+                raise Unsupported(s, 'unpacking of a value of type %s' % val[1])
+            env2 = dict(env)
+            for x, ty in zip(t.elts, parts):
+                if x.id in self.sig.get('reserved', []):
+                    raise Unsupported(s, 'assignment to reserved name %s' % x.id)
+                env2[x.id] = ty
+            return pad + "let '(%s) := %s in\n" % (', '.join(x.id for x in t.elts), val[0]) + self.block(rest, env2, final, ind)
         if isinstance(s, ast.Assign) and len(s.targets) == 1:
             t = s.targets[0]
             if isinstance(t, ast.Name):
@@ -349,6 +475,9 @@ def translate(sigpath, repo):
     tree = ast.parse(raw.decode())
     check_pins(sig, repo)
     bindings = top_bindings(tree)
+    for name, origin in sorted(sig.get('require_bindings', {}).items()):
+        if bindings.get(name) != origin:
+            raise Unsupported(tree, 'the name %s is %s at the top level of the module, the signature has %s' % (name, bindings.get(name), origin))
     out = []
     body0 = tree.body
     if sig.get('class'):
